@@ -524,6 +524,15 @@ def gen_specs(chk, pid):
         # a library block behind the large one, then the small block in front of both goes away
         specs.append(("crafted N=5 live=2 (%d-byte block)" % size, init,
                       [[("add", pool["EV"][2], "behind"), ("remove", 13)], [("remove", 14)]], "tail of more than 4 MiB"))
+    # --- 4c. (thorough tier, C03 only: about 5 minutes and 6 GB) a VALID block of more than 16 MiB added through the library,
+    #          then further adds / a removal: what a size-gated streaming path for large blocks would have to get right
+    if not quick and pid == "C03":
+        n = (16 << 20) // 8 + 70000
+        frames = [0x3F800000 + (i & 0xFFFF) for i in range(n)]
+        huge = Spec("EM", 1, [2, 1000, 0, n, [1, 2], [[[0x61], frames], [[0x62], frames]]])
+        init = crafted(chk.work, "huge", 4, [], rng)
+        specs.append(("crafted N=4 empty", init, [[("add", huge, "more than 16 MiB"), ("add", pool["EV"][1], None)], [("add", pool["D3"][1], None), ("remove", 11)]],
+                      "a valid block of more than 16 MiB added, then more calls"))
     # --- 5. the BTS capture as the initial file
     if os.path.exists(common.CAPTURE):
         for j in range(1 if quick else 4):
